@@ -3,7 +3,7 @@ import random
 from collections import Counter
 import common, gen, pool, drv
 
-THEOREMS = ["Asm.joinShared_subBlocks", "Asm.sharedOk_subBlocks", "Asm.rebuild_none", "Asm.rebuild_head", "Asm.rebuild_tail"]
+THEOREMS = ["Asm.joinShared_subBlocks", "Asm.sharedOk_subBlocks", "Asm.rebuild_none", "Asm.rebuild_head", "Asm.rebuild_tail", "Asm.rebuild_one"]
 SPLIT = {"LOG0", "LOG1", "LOG2", "LOG3", "LOG4", "CALLDATACOPY", "CODECOPY", "EXTCODECOPY", "RETURNDATACOPY", "CALL",
          "STATICCALL", "DELEGATECALL", "CREATE", "CREATE2", "ASSIGNIMMUTABLE", "GAS"}
 STORES = {"SSTORE", "MSTORE", "MSTORE8"}
